@@ -35,6 +35,7 @@ type Obligation struct {
 }
 
 type Enc struct {
+	pinned []pinnedCell // cells of write-once captured variables (abstract mode, closure under contract)
 	W           *World
 	fn          *ssa.Function
 	fname       string
@@ -822,3 +823,5 @@ func sortedKeys(m map[string]bool) []string {
 	sort.Strings(xs)
 	return xs
 }
+
+type pinnedCell struct{ comp, ref, val string }
